@@ -234,9 +234,11 @@ func runCase(c *Case) (nontrivial int, err error) {
 			if !offeredGzip(r.AE) {
 				return nontrivial, fmt.Errorf("%s: client did not offer gzip but the response is gzip-coded", desc)
 			}
-			if r.Method == "HEAD" || len(g.Body) == 0 && len(p.Body) == 0 {
-				break
+			if r.Method == "HEAD" || g.Status == 204 || g.Status == 304 || g.Status < 200 {
+				break // no body on the wire by definition
 			}
+			// an empty identity body is no excuse: zero bytes are not a gzip stream, a client that honours
+			// the label cannot decode them
 			dec, derr := gunzip(g.Body)
 			if derr != nil {
 				return nontrivial, fmt.Errorf("%s: labelled gzip but the body does not decode (%v): %d bytes %q; identity body is %d bytes", desc, derr, len(g.Body), clip(g.Body), len(p.Body))
@@ -487,6 +489,9 @@ func genScript(t *rapid.T, lb string) *probe.Script {
 	}
 	s.Status = rapid.SampledFrom([]int{200, 200, 200, 0, 201, 204, 304, 404, 500, 206}).Draw(t, lb+"status")
 	s.FlushFirst = rapid.IntRange(0, 9).Draw(t, lb+"ff") == 0
+	if s.Status != 0 && !s.FlushFirst && rapid.IntRange(0, 9).Draw(t, lb+"early") == 0 {
+		s.Early = 103 // Early Hints before the real header: compression is decided with the real one
+	}
 	nch := rapid.IntRange(0, 4).Draw(t, lb+"nch")
 	total := 0
 	if s.Status == 204 || s.Status == 304 {
